@@ -60,7 +60,7 @@ def main():
         if confirmed >= 2:
             # two cases of this run have been shown not to end: the run fails whatever the rest does, so the rest is given a
             # short limit and no second chance (otherwise every further looping case costs four times the limit)
-            signal.setitimer(signal.ITIMER_REAL, min(limit, 5), 1.0)
+            signal.setitimer(signal.ITIMER_REAL, max(1, min(5, limit // 10)), 1.0)
             try:
                 r = impl(c, state) if setup else impl(c)
             except CaseTimeout:
